@@ -7,7 +7,10 @@ from ..fold import NotConst, ObjEnv, exec_block, _Return
 from ..model import AnalysisError, U, walk_no_nested, parent, ancestors
 
 P15 = ("C15",)
-P15_03 = ("C15", "C03", "C01", "C04")
+# a memoised helper that outlives a mode switch corrupts every property that
+# is stated for all calendar modes and computes with year/month/week lengths
+P15_03 = ("C15", "C03", "C01", "C04", "C02", "C05", "C06", "C09", "C12",
+          "C20")
 
 
 # ------------------------------------------------------------ common facts
